@@ -186,7 +186,7 @@ structure StrEnc where
   adjuster : Option LinAdj
   termChar : Option Bytes
   leadingSize : Option Int
-  byteOrder : Option String := none     -- recorded only; decoding never consults it (see C09)
+  byteOrder : Option String := none     -- decides the codec of `UTF-16` / `UTF-32`
 
 def optTruthy (o : Option Int) : Bool := match o with | some v => v != 0 | none => false
 def listTruthy {α} (o : Option (List α)) : Bool := match o with | some l => !l.isEmpty | none => false
@@ -233,6 +233,12 @@ def StrEnc.rawBuffer (e : StrEnc) (p : Pkt) : Except Err (Bytes × Raw) :=
     | .error err => .error err
     | .ok (v, raw') => .ok (toBytesBE nbytes.toNat (v <<< pad.toNat), raw')
 
+/-- The Python codec used for decoding: `UTF-16` / `UTF-32` follow the declared byte order. -/
+def StrEnc.codec (e : StrEnc) : String :=
+  if e.encoding == "UTF-16" || e.encoding == "UTF-32" then
+    e.encoding ++ (if e.byteOrder == some "leastSignificantByteFirst" then "LE" else "BE")
+  else e.encoding
+
 def decodeOrErr (enc : String) (bs : Bytes) : Except Err String :=
   match decodeText enc bs with
   | some s => .ok s
@@ -248,7 +254,7 @@ def StrEnc.extractText (e : StrEnc) (buf : Bytes) : Except Err String :=
       else
         match liftBit (readAsBytes r1 strlen) with
         | .error err => .error err
-        | .ok (bs, _) => decodeOrErr e.encoding bs
+        | .ok (bs, _) => decodeOrErr e.codec bs
   else match e.termChar with
     | some t =>
       match bytesIndex buf t with
@@ -256,8 +262,8 @@ def StrEnc.extractText (e : StrEnc) (buf : Bytes) : Except Err String :=
       | some i =>
         match liftBit (readAsBytes ⟨buf, 0⟩ ((i : Int) * 8)) with
         | .error err => .error err
-        | .ok (bs, _) => decodeOrErr e.encoding bs
-    | none => decodeOrErr e.encoding buf
+        | .ok (bs, _) => decodeOrErr e.codec bs
+    | none => decodeOrErr e.codec buf
 
 /-- `StringDataEncoding.parse_value` -/
 def StrEnc.parseValue (e : StrEnc) (p : Pkt) : Except Err (Param × Raw) :=
